@@ -269,7 +269,11 @@ Definition simplify_step (lp : SimpLoop) (el : PathEl T) : option SimpLoop :=
                             else Some (SegCubic (mkCubic last p1 p2 p3)))
   | ClosePath =>
       let st := ss_flush (sl_state lp) in
-      Some (mkSL (sl_last_pt lp) None (mkSS (ss_queue st) (ss_result st ++ [ClosePath]) true))
+      (* if !state.needs_moveto { state.result.close_path() }: a sub-path that produced no output
+         (not even its MoveTo) is not closed (simplify.rs 335-343, repair 045795e) *)
+      Some (mkSL (sl_last_pt lp) None
+              (mkSS (ss_queue st)
+                    (if ss_needs_moveto st then ss_result st else ss_result st ++ [ClosePath]) true))
   end.
 
 Fixpoint simplify_loop (lp : SimpLoop) (els : list (PathEl T)) : option SimpLoop :=
